@@ -367,6 +367,142 @@ def loopback_case(ctx, rng, idx):
         W.close()
 
 
+# ------------------------------------------------------------------ TLS client on a real TLS listener
+TLS_BOUND = 16      # service rounds: connect, accept and the handshake flights each take a round or two on loopback
+
+
+def tls_case(ctx, rng, idx):
+    """A reconnectable ClientTls on a real ServerTls (certificates of ioflo's own tests): established (handshake done),
+    dropped by the server (FIN or RST), and -- one timeout later -- connected *and handshaken* again within a bounded
+    number of service rounds; the new connection carries bytes.  The server stays up throughout (what a handshake does
+    when the peer vanishes in the middle of it is the subject of C25)."""
+    import os
+    import ssl
+    from ioflo.aio.tcp import clienting, serving
+    certs = os.path.join(os.path.dirname(clienting.__file__), "..", "test", "tls", "certs") + "/"
+    T = rng.choice((0.5, 1.0, 2.0))
+    rc = rng.random() < 0.85
+    how = rng.choice(("fin", "rst"))
+    # no virtual time passes while a connection is being established: a client whose timeout runs out in the middle of a
+    # handshake starts over, and what the *server's* handshake does when its peer vanishes is the C25 finding
+    gaps = 0.0
+    params = {"kind": "ClientTls", "timeout": T, "reconnectable": rc, "drop": how, "step": gaps}
+    clk = clock()
+    srv = serving.ServerTls(ha=(HOST, 0), store=clk, timeout=0.0, certify=ssl.CERT_NONE,
+                            keypath=certs + "server_key.pem", certpath=certs + "server_cert.pem")
+    if not srv.reopen():
+        ctx.hit("discarded_no_listen_port")
+        return
+    srv.eha = srv.ha
+    cl = clienting.ClientTls(ha=srv.ha, store=clk, certify=ssl.CERT_NONE, hostify=False, certedhost="localhost",
+                             timeout=T, reconnectable=rc, bufsize=8096)
+    loop = Loop(clk, wall_limit=30.0, pace=0.0005)
+    log = []
+
+    def wit(extra=None):
+        def f():
+            w = dict(params, clock=clk.stamp, connected=cl.connected, cutoff=cl.cutoff, events=log[-30:])
+            w.update(extra or {})
+            return w
+        return f
+
+    def one_round():
+        srv.serviceConnects()
+        srv.serviceReceivesAllIx()
+        loop.call("round", lambda: (cl.serviceConnect(), cl.serviceReceives(), cl.serviceTxes()))
+        srv.serviceConnects()
+        srv.serviceReceivesAllIx()
+        ctx.event()
+        loop._time.sleep(loop.pace)
+        log.append("round@%g: connected=%s cutoff=%s" % (clk.stamp, cl.connected, cl.cutoff))
+
+    def established(bound):
+        for r in range(bound + 1):
+            if cl.connected and not cl.cutoff and cl.cs is not None and srv.ixes.get(cl.ca) is not None:
+                return r
+            if r < bound:
+                if gaps:
+                    loop.advance(gaps)
+                one_round()
+                loop.watchdog()
+        return None
+
+    try:
+        try:
+            cl.reopen()
+            first = established(TLS_BOUND)
+            if first is None:
+                ctx.inconclusive_case("the TLS client did not get connected the first time within %d rounds" % TLS_BOUND)
+                return
+            ix = srv.ixes.get(cl.ca)
+            old_cs = cl.cs
+            if how == "rst":
+                ix.cs.setsockopt(socket.SOL_SOCKET, socket.SO_LINGER, struct.pack("ii", 1, 0))
+            srv.removeIx(ix.ca)
+            ctx.hit("drops_%s" % how)
+            for _ in range(3):
+                one_round()
+            if not cl.cutoff:
+                ctx.hit("tls_drop_not_noticed")
+                return
+            t_loss = clk.stamp
+            loop.advance(T + EPS)
+            ctx.case(("tls", T, rc, how, gaps), nontrivial=True)
+            if not rc:
+                for _ in range(4):
+                    one_round()
+                    loop.advance(T)
+                ctx.hit("nonreconnectable_rounds_after_cutoff", 4)
+                ctx.check(cl.cs is old_cs or cl.cs is None, "ClientTls/not-reconnectable/reopened-after-cutoff",
+                          "ClientTls (reconnectable=False) opened a new socket on its own after the cut off", wit())
+                return
+            used = established(TLS_BOUND)
+            ctx.hit("reconnect_checked_ClientTls")
+            ctx.hit("reconnect_after_loss_ClientTls")
+            if not ctx.check(used is not None, "ClientTls/not-connected-within-bound",
+                             "ClientTls (reconnectable, timeout %g): not connected again within %d service rounds after the "
+                             "timeout although the server listens" % (T, TLS_BOUND), wit()):
+                return
+            ctx.hit("tls_rounds_needed_%d" % used)
+            ctx.check(live_addresses_ok(cl), "ClientTls/addresses-not-those-of-live-socket",
+                      "ClientTls: after reconnecting .ca/.ha are not the live socket's local/peer addresses",
+                      wit({"ca": cl.ca, "ha": cl.ha}))
+            tag = b"tag-%06d" % idx
+            cl.tx(tag)
+            got = b""
+            for _ in range(BOUND):
+                one_round()
+                ix = srv.ixes.get(cl.ca)
+                got = bytes(ix.rxbs) if ix is not None else b""
+                if tag in got:
+                    break
+            ctx.check(tag in got, "ClientTls/reconnected-but-not-live",
+                      "ClientTls reports connected but bytes do not reach the server entry for its .ca (no handshake on the new socket?)",
+                      wit({"server_received": got[-40:].hex()}))
+        except Inconclusive:
+            raise
+        except Exception as ex:   # noqa
+            ctx.fail("tls/raises/%s" % exc_key(ex), "ClientTls: a service call raised %r" % (ex,), wit({"raised": repr(ex)}))
+    finally:
+        linger = struct.pack("ii", 1, 0)
+        for sock in [cl.cs] + [i.cs for i in srv.ixes.values()]:
+            try:
+                if sock is not None:
+                    sock.setsockopt(socket.SOL_SOCKET, socket.SO_LINGER, linger)
+            except Exception:   # noqa
+                pass
+        try:
+            cl.close()
+        except Exception:   # noqa
+            pass
+        try:
+            for ca in list(srv.ixes.keys()):
+                srv.removeIx(ca)
+            srv.close()
+        except Exception:   # noqa
+            pass
+
+
 # ------------------------------------------------------------------ doubles
 
 OK_CODES = (0, errno.EISCONN)
@@ -479,6 +615,10 @@ def worker(ctx, job):
         for i in range(job["N"]):
             loopback_case(ctx, rng, job["k"] * 100000 + i)
             ctx.hit("loopback_cases")
+        rng2 = ctx.subrng("c27tls", job["k"])
+        for i in range(max(4, job["N"] // 8)):
+            tls_case(ctx, rng2, job["k"] * 100000 + 50000 + i)
+            ctx.hit("tls_cases")
     else:
         for kind in ("Client", "Patron", "TcpClientStack"):
             for L in range(1, job["L"] + 1):
@@ -504,4 +644,5 @@ def run(ctx):
     ctx.floor("double_cases", ctx.pick(1500, 9000))
     ctx.floor("distinct_nontrivial", ctx.pick(1500, 15000))
     ctx.floor("reconnect_after_loss_PatronEvented", ctx.pick(15, 300))
+    ctx.floor("reconnect_after_loss_ClientTls", ctx.pick(30, 2000))
     ctx.floor("event_stream_resumed_after_reconnect", ctx.pick(10, 200))
